@@ -893,6 +893,27 @@ def check_annotator_order(ctx: Ctx, rule: str, judge: bool = False):
     if ("annotator-order", rule) in ctx.notes.setdefault("records_checked", set()):
         return
     ctx.notes["records_checked"].add(("annotator-order", rule))
+    # what the constructor makes the two containers of: the sorted mapping and the sorted set of sortedcontainers (peekitem, index, alphabetical
+    # iteration are what the decoder, the array builders and the samplers rely on)
+    init = M.functions.get("Continuum.__init__")
+    if init is not None:
+        for fld, want, plain in (("_annotations", "SortedDict", ("dict", "OrderedDict", "defaultdict", "collections.OrderedDict", "collections.defaultdict")),
+                                 ("_categories", "SortedSet", ("set", "list", "frozenset", "tuple"))):
+            sts = [s_ for s_ in walk_no_nested(init.node) if isinstance(s_, ast.Assign) and norm(s_.targets[0]) == f"{init.self_name}.{fld}"]
+            if len(sts) != 1:
+                ctx.undecided(rule, init, None, f"Continuum.__init__ binds {fld} {len(sts)} times (not a verdict)", construct=fld, key=f"ctor:{fld}")
+                continue
+            v = sts[0].value
+            kind = dotted(v.func) if isinstance(v, ast.Call) else "dict" if isinstance(v, (ast.Dict, ast.DictComp)) else "list" if isinstance(v, (ast.List, ast.ListComp)) else \
+                "set" if isinstance(v, (ast.Set, ast.SetComp)) else None
+            if kind is not None and kind.split(".")[-1] == want:
+                ctx.ok(rule, init, sts[0], f"a new continuum keeps {fld} in a {want}", key=f"ctor:{fld}")
+            elif kind in plain and judge:
+                ctx.bad(rule, init, sts[0], f"a new continuum keeps {fld} in `{norm(v)}`, not in a {want}: " +
+                        ("the annotators come in insertion order, not alphabetically (and positional access by rank is gone)" if fld == "_annotations" else
+                         "the categories are not kept sorted and without duplicates (the label index of a unit is its rank in that set)"), key=f"ctor:{fld}")
+            else:
+                ctx.undecided(rule, init, sts[0], f"a new continuum keeps {fld} in `{norm(v)}`, not in a {want} (not a verdict)", key=f"ctor:{fld}")
     # the annotator mapping: SortedDict(<key function>, ...) orders the annotators by that key, while `annotators` (a plain SortedSet of the
     # keys) and everything documented say: by name.  Iteration order (`__iter__`, peekitem, the array builders) and `annotators` then disagree.
     for g in list(M.functions.values()):
